@@ -19,6 +19,7 @@ const (
 	SEnd
 	SRecordType
 	SRecord
+	SMarker // a marker (fresh identifier); transparent: the next symbol must be a value, which is then offered as usual
 )
 
 type Sym struct {
@@ -59,15 +60,16 @@ const (
 )
 
 type Rules struct {
-	phase phase
-	stack []frame
-	types map[string]int
+	phase         phase
+	pendingMarker bool
+	stack         []frame
+	types         map[string]int
 }
 
 func NewRules() *Rules { return &Rules{types: map[string]int{}} }
 
 func (r *Rules) Clone() *Rules {
-	c := &Rules{phase: r.phase, types: make(map[string]int, len(r.types))}
+	c := &Rules{phase: r.phase, pendingMarker: r.pendingMarker, types: make(map[string]int, len(r.types))}
 	for k, v := range r.types {
 		c.types[k] = v
 	}
@@ -133,6 +135,27 @@ func (r *Rules) UsedKeys() map[string]bool {
 
 // Step offers one symbol; false = the sequence is invalid at this symbol.
 func (r *Rules) Step(s Sym) bool {
+	if r.pendingMarker {
+		switch s.Kind {
+		case SNull, SKeyable, SNonKeyable, SList, SMap, SEdge, SNode, SRecord:
+			r.pendingMarker = false
+		default:
+			return false // a marker must be followed by the object it marks
+		}
+	}
+	if s.Kind == SMarker {
+		if r.phase != pTop {
+			return false
+		}
+		if len(r.stack) > 0 {
+			f := r.stack[len(r.stack)-1]
+			if (f.kind == fEdge && f.pos >= 3) || (f.kind == fRecord && f.pos >= f.arity) || f.kind == fRecType {
+				return false
+			}
+		}
+		r.pendingMarker = true
+		return true
+	}
 	switch s.Kind {
 	case SBD:
 		if r.phase != pStart {
